@@ -239,14 +239,34 @@ Fixpoint separated (l : list ftok) : bool :=
   | _ => true
   end.
 
+(* "... or locale names instead of month/day": the month by name (%b %B %h) and, harmlessly, the weekday by
+   name (%a %A); these go through strftime/strptime (the C locale's names) *)
+Definition locale_name_spec (raw : list Z) : bool :=
+  match raw with
+  | [37; c] => (c =? 98) || (c =? 66) || (c =? 104) || (c =? 97) || (c =? 65)
+  | _ => false
+  end.
+Definition is_month_name (t : ftok) : bool :=
+  match t with
+  | FOther [37; c] => (c =? 98) || (c =? 66) || (c =? 104)
+  | _ => false
+  end.
+
 Definition lossless_fmt (fmt : list Z) (off : Z) (year : Z) : bool :=
   let l := lex fmt in
   clean_fmt fmt && separated l
-  && forallb (fun t => match t with FOther _ => false | FLib LZ => false | FLib Le => false | _ => true end) l
+  && forallb (fun t => match t with FOther raw => locale_name_spec raw | FLib LZ => false | FLib Le => false | _ => true end) l
   && (has l (fun k => match k with Ls => true | _ => false end)
       || ((has l (fun k => match k with LY => true | _ => false end)
            || (has l (fun k => match k with LE4Y => true | _ => false end) && (-999 <=? year) && (year <=? 9999)))
-          && ((has l (fun k => match k with Lm => true | _ => false end) && has l (fun k => match k with Ld => true | _ => false end)))
+          && (((has l (fun k => match k with Lm => true | _ => false end) || existsb is_month_name l)
+               && has l (fun k => match k with Ld => true | _ => false end))
+              (* "dates expressed through week numbers": a week number and a weekday with no month/day token
+                 (a later %m or %d would make parse() forget the week number) *)
+              || (has l (fun k => match k with LU | LW => true | _ => false end)
+                  && has l (fun k => match k with Lu | Lw => true | _ => false end)
+                  && negb (has l (fun k => match k with Lm | Ld => true | _ => false end))
+                  && negb (existsb is_month_name l)))
           && has l (fun k => match k with LH => true | _ => false end)
           && has l (fun k => match k with LM => true | _ => false end)
           && (has l (fun k => match k with LEsS => true | LEnS n => 15 <=? n | _ => false end)
